@@ -189,31 +189,19 @@ var (
 	c15LabelPool   = []string{"a", "b", "www", "foo", "bar", "ftp1", "x-y", "0"}
 )
 
-// c15Chance is true with the given probability. rapid's integer generators favour small values, so the
-// percentage is built from fair coin flips; all-false (the shrink target) means "feature off".
-func c15Chance(rt *rapid.T, label string, percent int) bool {
-	v := 0
-	for i := 0; i < 6; i++ {
-		if rapid.Bool().Draw(rt, label) {
-			v |= 1 << i
-		}
-	}
-	return v*100 >= (100-percent)*64
-}
-
 func c15DrawRole(rt *rapid.T, m *c15Mount) *c15Role {
 	r := &c15Role{}
 	nd := rapid.SampledFrom([]int{2, 1, 3, 0}).Draw(rt, "nDomains")
 	for i := 0; i < nd; i++ {
-		if c15Chance(rt, "globDomain", 35) {
+		if vxChance(rt, "globDomain", 35) {
 			r.AllowedDomains = append(r.AllowedDomains, rapid.SampledFrom(c15GlobDomains).Draw(rt, "domain"))
 		} else {
 			r.AllowedDomains = append(r.AllowedDomains, rapid.SampledFrom(c15BaseDomains).Draw(rt, "domain"))
 		}
 	}
-	r.AllowBare = c15Chance(rt, "allow_bare_domains", 60)
-	r.AllowSub = c15Chance(rt, "allow_subdomains", 60)
-	r.AllowGlob = c15Chance(rt, "allow_glob_domains", 55)
+	r.AllowBare = vxChance(rt, "allow_bare_domains", 60)
+	r.AllowSub = vxChance(rt, "allow_subdomains", 60)
+	r.AllowGlob = vxChance(rt, "allow_glob_domains", 55)
 	switch rapid.IntRange(0, 3).Draw(rt, "allow_wildcard_certificates") {
 	case 0: // not sent
 	case 1:
@@ -223,10 +211,10 @@ func c15DrawRole(rt *rapid.T, m *c15Mount) *c15Role {
 		tr := true
 		r.AllowWildcard = &tr
 	}
-	r.AllowLocalhost = c15Chance(rt, "allow_localhost", 50)
-	r.AllowAnyName = c15Chance(rt, "allow_any_name", 12)
-	r.EnforceHostnames = c15Chance(rt, "enforce_hostnames", 65)
-	r.AllowIPSANs = c15Chance(rt, "allow_ip_sans", 65)
+	r.AllowLocalhost = vxChance(rt, "allow_localhost", 50)
+	r.AllowAnyName = vxChance(rt, "allow_any_name", 12)
+	r.EnforceHostnames = vxChance(rt, "enforce_hostnames", 65)
+	r.AllowIPSANs = vxChance(rt, "allow_ip_sans", 65)
 	r.IPCIDRs = rapid.SampledFrom([][]string{nil, nil, {"10.0.0.0/8"}, {"192.168.0.0/16", "fd00::/8"}}).Draw(rt, "allowed_ip_sans_cidr")
 	r.URISANs = rapid.SampledFrom([][]string{nil, nil, {"spiffe://example.com/*"}, {"https://*.example.com/x"}, {"*"}}).Draw(rt, "allowed_uri_sans")
 	r.OtherSANs = rapid.SampledFrom([][]string{nil, nil, {"*"}, {"1.3.6.1.4.1.311.20.2.3;UTF8:*"}, {"1.3.6.1.4.1.311.20.2.3;utf8:*@example.com"}}).Draw(rt, "allowed_other_sans")
@@ -247,11 +235,11 @@ func c15DrawRole(rt *rapid.T, m *c15Mount) *c15Role {
 	if r.MaxTTL > 0 && r.TTL > r.MaxTTL {
 		r.TTL = r.MaxTTL // the API refuses ttl > max_ttl; construct a valid role
 	}
-	if c15Chance(rt, "not_before_duration_sent", 50) {
+	if vxChance(rt, "not_before_duration_sent", 50) {
 		d := rapid.SampledFrom([]time.Duration{0, 10 * time.Second, 5 * time.Minute, 2 * time.Hour}).Draw(rt, "not_before_duration")
 		r.NotBeforeDur = &d
 	}
-	if c15Chance(rt, "role_not_after", 6) {
+	if vxChance(rt, "role_not_after", 6) {
 		r.NotAfter = rapid.SampledFrom([]string{"2030-01-01T00:00:00Z", "9999-12-31T23:59:59Z"}).Draw(rt, "not_after")
 	}
 	r.NotAfterBound = rapid.SampledFrom([]string{"", "", "permit", "ttl-limited", "ttl-limited", "forbid", "2027-06-01T00:00:00Z"}).Draw(rt, "not_after_bound")
@@ -268,16 +256,16 @@ func c15DrawRole(rt *rapid.T, m *c15Mount) *c15Role {
 		r.KeyUsageSent, r.KeyUsage = true, []string{"CertSign", "CRLSign"}
 	}
 	r.ExtKeyUsage = rapid.SampledFrom([][]string{nil, nil, {"CodeSigning"}, {"TimeStamping", "OCSPSigning"}, {"Any"}}).Draw(rt, "ext_key_usage")
-	r.ServerFlag = c15Chance(rt, "server_flag", 70)
-	r.ClientFlag = c15Chance(rt, "client_flag", 70)
-	r.CodeSignFlag = c15Chance(rt, "code_signing_flag", 15)
-	r.EmailFlag = c15Chance(rt, "email_protection_flag", 15)
+	r.ServerFlag = vxChance(rt, "server_flag", 70)
+	r.ClientFlag = vxChance(rt, "client_flag", 70)
+	r.CodeSignFlag = vxChance(rt, "code_signing_flag", 15)
+	r.EmailFlag = vxChance(rt, "email_protection_flag", 15)
 	r.CNValidations = rapid.SampledFrom([][]string{nil, {"email", "hostname"}, {"email", "hostname"}, {"hostname"}, {"email"}, {"disabled"}}).Draw(rt, "cn_validations")
-	r.UseCSRCN = c15Chance(rt, "use_csr_common_name", 75)
-	r.UseCSRSANs = c15Chance(rt, "use_csr_sans", 75)
-	r.RequireCN = c15Chance(rt, "require_cn", 85)
-	r.BasicConstraints = c15Chance(rt, "basic_constraints_valid_for_non_ca", 20)
-	r.NoStore = c15Chance(rt, "no_store", 10)
+	r.UseCSRCN = vxChance(rt, "use_csr_common_name", 75)
+	r.UseCSRSANs = vxChance(rt, "use_csr_sans", 75)
+	r.RequireCN = vxChance(rt, "require_cn", 85)
+	r.BasicConstraints = vxChance(rt, "basic_constraints_valid_for_non_ca", 20)
+	r.NoStore = vxChance(rt, "no_store", 10)
 	refs := []string{"default", "default", "root"}
 	if _, ok := m.issuers["int"]; ok {
 		refs = append(refs, "int", "int")
@@ -359,7 +347,7 @@ func c15DrawName(rt *rapid.T, r *c15Role, kinds []string) c15Name {
 		}
 	}
 	var src string
-	if len(pool) > 0 && c15Chance(rt, "fromRole", 90) {
+	if len(pool) > 0 && vxChance(rt, "fromRole", 90) {
 		src = rapid.SampledFrom(pool).Draw(rt, "srcDomain")
 	} else {
 		src = rapid.SampledFrom(c15BaseDomains).Draw(rt, "srcDomain")
@@ -419,12 +407,12 @@ func c15DrawName(rt *rapid.T, r *c15Role, kinds []string) c15Name {
 	case "badwild":
 		return c15Name{rapid.SampledFrom([]string{"a.*.", "*.*.", "**.", "*", "a.b*."}).Draw(rt, "badw") + d, "malformed-wildcard", false}
 	case "upper":
-		if len(kinds) == len(c15AllKinds) && c15Chance(rt, "upperSub", 50) {
+		if len(kinds) == len(c15AllKinds) && vxChance(rt, "upperSub", 50) {
 			return c15Name{"WwW." + strings.ToUpper(d), "upper-case", true}
 		}
 		return c15Name{strings.ToUpper(d), "upper-case", true}
 	case "dot":
-		if c15Chance(rt, "dotSub", 50) {
+		if vxChance(rt, "dotSub", 50) {
 			return c15Name{lab() + "." + d + ".", "trailing-dot", true}
 		}
 		return c15Name{d + ".", "trailing-dot", true}
@@ -495,7 +483,7 @@ func c15DrawReq(rt *rapid.T, m *c15Mount, r *c15Role) *c15Req {
 		eps = []string{"issue", "sign", "sign", "sign", "sign", "sign", "sign", "verbatim", "issuer-sign", "issuer-sign", "issuer-verbatim"}
 	}
 	q.Endpoint = rapid.SampledFrom(eps).Draw(rt, "endpoint")
-	if c15Chance(rt, "signIntermediate", 3) {
+	if vxChance(rt, "signIntermediate", 3) {
 		q.Endpoint = "sign-intermediate"
 	}
 	if strings.HasPrefix(q.Endpoint, "issuer-") || q.Endpoint == "sign-intermediate" {
@@ -565,16 +553,16 @@ func c15DrawReq(rt *rapid.T, m *c15Mount, r *c15Role) *c15Req {
 	if mode == "legit" && r.RequireCN {
 		noCNP = 0
 	}
-	if c15Chance(rt, "freeFormCN", freeP) {
+	if vxChance(rt, "freeFormCN", freeP) {
 		q.CN = rapid.SampledFrom([]string{"Some Human Name", "device 0001", "svc/backend"}).Draw(rt, "cnText")
 		q.Alts = strs
 		q.Names = append(q.Names, c15Name{q.CN, "free-form-cn", true})
-	} else if c15Chance(rt, "noCN", noCNP) {
+	} else if vxChance(rt, "noCN", noCNP) {
 		q.Alts = strs
 	} else {
 		q.CN, q.Alts = strs[0], strs[1:]
 	}
-	q.ExcludeCN = c15Chance(rt, "exclude_cn_from_sans", 12)
+	q.ExcludeCN = vxChance(rt, "exclude_cn_from_sans", 12)
 	ipPool := []string{"10.1.2.3", "192.168.1.1", "8.8.8.8", "fd00::1", "2001:db8::1", "127.0.0.1"}
 	uriPool := []string{"spiffe://example.com/svc", "spiffe://evil.net/svc", "https://www.example.com/x", "https://a.example.com.evil.net/x"}
 	otherPool := []string{"1.3.6.1.4.1.311.20.2.3;UTF8:user@example.com", "1.3.6.1.4.1.311.20.2.3;UTF8:user@evil.net", "1.2.3.4;UTF8:x"}
@@ -594,13 +582,13 @@ func c15DrawReq(rt *rapid.T, m *c15Mount, r *c15Role) *c15Req {
 			return c15OtherSANAllowed(r, c15OtherName{OID: p[0], Value: strings.SplitN(p[1], ":", 2)[1]})
 		})
 	}
-	if c15Chance(rt, "withIP", 15) && len(ipPool) > 0 {
+	if vxChance(rt, "withIP", 15) && len(ipPool) > 0 {
 		q.IPs = rapid.SliceOfNDistinct(rapid.SampledFrom(ipPool), 1, min(2, len(ipPool)), rapid.ID[string]).Draw(rt, "ip_sans")
 	}
-	if c15Chance(rt, "withURI", 10) && len(uriPool) > 0 {
+	if vxChance(rt, "withURI", 10) && len(uriPool) > 0 {
 		q.URIs = rapid.SliceOfNDistinct(rapid.SampledFrom(uriPool), 1, min(2, len(uriPool)), rapid.ID[string]).Draw(rt, "uri_sans")
 	}
-	if c15Chance(rt, "withOther", 6) && len(otherPool) > 0 {
+	if vxChance(rt, "withOther", 6) && len(otherPool) > 0 {
 		q.Others = []string{rapid.SampledFrom(otherPool).Draw(rt, "other_sans")}
 	}
 	lifetime := rapid.IntRange(0, 9).Draw(rt, "lifetime")
@@ -618,7 +606,7 @@ func c15DrawReq(rt *rapid.T, m *c15Mount, r *c15Role) *c15Req {
 	if mode == "legit" && r.NotBeforeBound == "forbid" {
 		nbP = 0
 	}
-	if c15Chance(rt, "withNotBefore", nbP) {
+	if vxChance(rt, "withNotBefore", nbP) {
 		q.NotBefore = rapid.SampledFrom([]string{"2020-01-01T00:00:00Z", "2026-01-01T00:00:00Z"}).Draw(rt, "reqNotBefore")
 	}
 	if !q.usesCSR() && r.KeyType == "any" {
@@ -632,7 +620,7 @@ func c15DrawReq(rt *rapid.T, m *c15Mount, r *c15Role) *c15Req {
 		if mode == "legit" {
 			matchP = 100
 		}
-		if r.KeyType != "any" && c15Chance(rt, "matchingKey", matchP) { // steer towards the role's key type
+		if r.KeyType != "any" && vxChance(rt, "matchingKey", matchP) { // steer towards the role's key type
 			for i, k := range keys {
 				if k.typ == r.KeyType && (k.bits >= r.KeyBits) {
 					q.Key = i
@@ -640,8 +628,8 @@ func c15DrawReq(rt *rapid.T, m *c15Mount, r *c15Role) *c15Req {
 				}
 			}
 		}
-		q.CsrCA = c15Chance(rt, "csrCA", 15)
-		q.CsrKU = c15Chance(rt, "csrKeyUsage", 10)
+		q.CsrCA = vxChance(rt, "csrCA", 15)
+		q.CsrKU = vxChance(rt, "csrKeyUsage", 10)
 		switch rapid.IntRange(0, 5).Draw(rt, "csrNames") {
 		case 0: // API carries the names, CSR is bare
 			q.CsrCN = ""
@@ -655,15 +643,15 @@ func c15DrawReq(rt *rapid.T, m *c15Mount, r *c15Role) *c15Req {
 			q.Names = append(q.Names, other, extra)
 			q.CsrCN = other.S
 			q.CsrNames = []string{extra.S}
-			if c15Chance(rt, "csrIP", 30) && len(ipPool) > 0 {
+			if vxChance(rt, "csrIP", 30) && len(ipPool) > 0 {
 				q.CsrIPs = []string{rapid.SampledFrom(ipPool).Draw(rt, "csrIPval")}
 			}
-			if c15Chance(rt, "csrURI", 30) && len(uriPool) > 0 {
+			if vxChance(rt, "csrURI", 30) && len(uriPool) > 0 {
 				q.CsrURIs = []string{rapid.SampledFrom(uriPool).Draw(rt, "csrURIval")}
 			}
 		default: // same names in both
 			q.CsrCN, q.CsrNames, q.CsrIPs, q.CsrURIs = q.CN, q.Alts, q.IPs, q.URIs
-			if c15Chance(rt, "apiEmpty", 50) {
+			if vxChance(rt, "apiEmpty", 50) {
 				q.CN, q.Alts, q.IPs, q.URIs = "", nil, nil, nil
 			}
 		}
